@@ -39,6 +39,7 @@ func runC01(c *Ctx, r *Report) {
 	c01R3(c, r, "C01.R3")
 	c01R4(c, r, "C01.R4")
 	c01TeeKeepsPipeOpen(c, r, "C01.R17")
+	c09DatagramNotDropped(c, r, "C01.R18") // no byte lost on UDP: a datagram the server loop has taken from the socket reader is queued for its association or explicitly released, on every path
 	c01R5(c, r, "C01.R5")
 	c01R6(c, r, "C01.R6")
 	c01R7(c, r, "C01.R7")
